@@ -5,7 +5,7 @@ CONSTANTS
   NewIds = {}
   Sids = {}
   MaxTs = 6
-  MaxRepl = 3
+  MaxRepl = 2
   MaxWrites = 3
   RecycleAge = 2
   Window = 2
